@@ -27,10 +27,30 @@ def run_block(block):
 
 
 def replay(case):
+    if case.get('cross'):
+        return {'verdict': 'ok', 'expected': 'ok', 'observed': None, 'detail': 'synthetic cross-task'}
     del _SEEN[:]
     return {'verdict': judge(case), 'expected': 'ok', 'observed': None, 'detail': 'synthetic'}
 
 
+_FLAG = []
+
+
+def run_block_cross(block):
+    """every task first judges its case (wrong iff an EARLIER task of the same worker process left the flag), then leaves it"""
+    rep = core.Report()
+    case = {'n': block[0], 'cross': True}
+    rep.case(key=block[0], outcome=bool(_FLAG))
+    if _FLAG:
+        rep.violation(case, 'ok', 'wrong after tasks %r' % (_FLAG,), 'synthetic cross-task')
+    _FLAG.append(block[0])
+    return rep.close_block()
+
+
 def run(tier, seed, rep):
+    import os
+    if os.environ.get('T99_MODE') == 'cross':
+        core.merge_all(run_block_cross, [(i,) for i in range(8)], rep)
+        return {'exhaustive': True, 'bounds': {}, 'floors': {}}
     core.merge_all(run_block, [(0, 1, 2, 3), (4, 5, 6)], rep)
     return {'exhaustive': True, 'bounds': {}, 'floors': {}}
